@@ -14,7 +14,9 @@ def World.Isolated (w : World) : Prop :=
 
 theorem private_copy_frame (w : World) (op : WOp) (h : w.shared = false) :
     (w.step op).shared = false ∧ (w.step op).defaultCell = w.defaultCell ∧ (w.step op).callerCell = w.callerCell := by
-  cases op <;> simp [World.step, h]
+  cases op with
+  | copy i => simp only [World.step]; cases w.bandits[i]? <;> simp [h]
+  | _ => simp [World.step, h]
 
 /-- **C04 (isolation, private copies).**  With private parameter copies, after *any* interleaving of
     constructions, fits and other calls on any number of bandits, every bandit's trees were built
@@ -55,6 +57,16 @@ theorem noninterference_private (ops : List WOp) (d0 : Nat) :
             · simp at e; rw [e, h1]
           · exact ⟨h1, h2⟩
         | other i => exact hi.1
+        | copy i =>
+          simp only [World.step]
+          cases hb : w.bandits[i]? with
+          | none => exact hi.1
+          | some b0 =>
+            simp only []
+            intro b hb'
+            rcases List.mem_append.mp hb' with e | e
+            · exact hi.1 b e
+            · simp at e; subst e; exact hi.1 b (List.mem_of_getElem? hb)
       have := ih (w.step op) f1 hstep
       simp only [World.run, List.foldl_cons] at this ⊢
       exact ⟨this.1, by rw [this.2, f2]⟩
